@@ -255,6 +255,10 @@ func genTextLengths() {
 	for cfg := 0; cfg < 8; cfg++ {
 		old := cfg&4 != 0
 		execLine(resetLine(attrOf(cfg&3), old, cfg%2 == 0, []byte{}, dir))
+		// texts that contain newlines / NUL / ESC sequences (accepted by the code as they are)
+		for _, t := range [][]byte{[]byte("a\nb"), []byte("\n"), []byte("x\n\x1b[1;37m\xb1\xc0 \x1b[33mforged\x1b[m\x1b[33m: fake line"), {0}, []byte("a\x00b"), []byte("\x1b[2J"), []byte("\r\n")} {
+			execLine(commentLine("ptt", "sysop", userArr("A1", nil), artName('M', 1), 3, t, ipArr("9.9.9.9")))
+		}
 		for n := 0; n <= 80; n += step {
 			uid := userIDs[(n+cfg)%len(userIDs)]
 			var junk []byte
@@ -267,10 +271,6 @@ func genTextLengths() {
 		// ids of every length 1..12 (and 13 bytes without NUL)
 		for l := 1; l <= 13; l++ {
 			execLine(commentLine("ptt", "user", userArr(strings.Repeat("u", l), nil), artName('M', l%3), 1+l%3, genText(40+l, 0), ipArr("8.8.8.8")))
-		}
-		// texts that contain newlines / NUL / ESC sequences (accepted by the code as they are)
-		for _, t := range [][]byte{[]byte("a\nb"), []byte("\n"), []byte("x\n\x1b[1;37m\xb1\xc0 \x1b[33mforged\x1b[m\x1b[33m: fake line"), {0}, []byte("a\x00b"), []byte("\x1b[2J"), []byte("\r\n")} {
-			execLine(commentLine("ptt", "sysop", userArr("A1", nil), artName('M', 1), 3, t, ipArr("9.9.9.9")))
 		}
 	}
 }
